@@ -98,7 +98,8 @@ def gen_case(rng, tier, index):
             "seed": rng.getrandbits(32), "sched_seed": rng.getrandbits(48),
             "policy": rng.choice(S.POLICIES),
             "policy_param": rng.randrange(0, 4),
-            "counter": rng.random() < 0.7}
+            "counter": rng.random() < 0.7,
+            "batch": rng.choice([0, 0, 2, 3, 32])}
 
 
 # ------------------------------------------------------------------ prim
@@ -198,7 +199,8 @@ def resolve_opts(case, n_examples, n_shards):
     fp = case["fp_sel"]
     fp = {"s": max(1, n_shards), "s+2": n_shards + 2,
           "s-1": max(1, n_shards - 1)}.get(fp, fp)
-    return {"repeat": False, "shuffle": shuffle, "fp": fp}
+    return {"repeat": False, "shuffle": shuffle, "fp": fp,
+            "batch": case.get("batch", 0)}
 
 
 def run_iface(case):
